@@ -213,95 +213,106 @@ structure Cfg where
 def Cfg.level (cfg : Cfg) (i : Nat) : Level := cfg.levels.getD i default
 def St.get (s : St) (i : Nat) : LvVecs := s.lv.getD i default
 def St.put (s : St) (i : Nat) (v : LvVecs) : St := { s with lv := s.lv.setIfInBounds i v }
-def St.say (s : St) (e : String) : St := { s with log := s.log.push e }
+def St.sayAll (s : St) (es : List String) : St := { s with log := s.log ++ es.toArray }
 
 /-- `matrix.apply(def, sol, rhs, -1)` followed by `filter_def` -/
 def defect (L : Level) (rhs sol : Vec) : Vec := filt L.fidx (vsub rhs (mulVec L.A sol))
 
+/-! Every primitive step reads the vectors of one level (plus one vector of the next coarser level), computes new
+vectors by a pure *local* function and appends the events of the user supplied objects to the call log:
+`a<l>`, `b<l>`, `k<l>`, `c<l>` = pre, post, peak smoother and coarse solver of level `l`, `R<l>`/`P<l>` = restriction from / prolongation
+onto level `l`, `D<l>` = defect computation `matrix.apply(def, sol, rhs, -1)` on level `l`, `M<l>` = plain product
+`matrix.apply(tmp, cor)` on level `l`. -/
+
+/-- pre-smoothing (or `format` + copy) inside `_apply_rest` -/
+def preSmooth (L : Level) (i : Nat) (v : LvVecs) : LvVecs × List String :=
+  match L.pre with
+  | some m =>
+    let sol := mulVec m v.rhs
+    ({ v with sol := sol, defe := vsub v.rhs (mulVec L.A sol) }, [s!"a{i}", s!"D{i}"])
+  | none => ({ v with sol := List.replicate L.n 0, defe := v.rhs }, [])
+
+/-- the fine-level part of one body of the `_apply_rest` loop -/
+def restLocal (L : Level) (i : Nat) (smooth : Bool) (v : LvVecs) : LvVecs × List String :=
+  let r := if smooth then preSmooth L i v else (v, [])
+  ({ r.1 with defe := filt L.fidx r.1.defe }, r.2 ++ [s!"R{i}"])
+
 /-- one body of the `_apply_rest` loop -/
 def stepRest (cfg : Cfg) (i : Nat) (smooth : Bool) (s : St) : St :=
   let L := cfg.level i
-  let v := s.get i
-  -- pre-smoothing or format
-  let (v, s) :=
-    if smooth then
-      match L.pre with
-      | some m =>
-        let sol := mulVec m v.rhs
-        ({ v with sol := sol, defe := vsub v.rhs (mulVec L.A sol) }, s.say s!"a{i}")
-      | none => ({ v with sol := List.replicate L.n 0, defe := v.rhs }, s)
-    else (v, s)
-  let v := { v with defe := filt L.fidx v.defe }
-  let s := (s.put i v).say s!"R{i}"
-  let Lc := cfg.level (i + 1)
-  let vc := s.get (i + 1)
-  s.put (i + 1) { vc with rhs := filt Lc.fidx (mulVec L.R v.defe) }
+  let r := restLocal L i smooth (s.get i)
+  let s := (s.put i r.1).sayAll r.2
+  s.put (i + 1) { s.get (i + 1) with rhs := filt (cfg.level (i + 1)).fidx (mulVec L.R r.1.defe) }
 
 /-- `if(omega_den != 0) omega_cgc = num / omega_den;` with `omega_cgc` initialised to 1 -/
 def cgcOmega (num den : Rat) : Rat := if den == 0 then 1 else num / den
 
-/-- one body of the `_apply_prol` loop -/
-def stepProl (cfg : Cfg) (i : Nat) (smooth : Bool) (s : St) : St :=
-  let L := cfg.level i
-  let v := s.get i
-  let vc := s.get (i + 1)
-  let s := s.say s!"P{i}"
-  let cor := filt L.fidx (mulVec L.P vc.sol)
-  let v := { v with cor := cor }
-  -- adaptive coarse grid correction; a vanishing denominator keeps `omega = 1` (fix of finding F-C09-1)
-  let (omega, v) :=
-    match cfg.cgc with
-    | .fixed => ((1 : Rat), v)
-    | .minEnergy =>
-      let tmp := filt L.fidx (mulVec L.A cor)
-      (cgcOmega (dot v.defe cor) (dot tmp cor), { v with tmp := tmp })
-    | .minDefect =>
-      let tmp := filt L.fidx (mulVec L.A cor)
-      (cgcOmega (dot v.defe tmp) (dot tmp tmp), { v with tmp := tmp })
-  let v := { v with sol := axpy omega v.cor v.sol }
+/-- (adaptive) coarse grid correction: step length, new `tmp` vector, events.
+    A vanishing denominator keeps `omega = 1` (fix of finding F-C09-1). -/
+def cgcStep (cgc : Cgc) (L : Level) (i : Nat) (v : LvVecs) : Rat × Vec × List String :=
+  match cgc with
+  | .fixed => (1, v.tmp, [])
+  | .minEnergy =>
+    let tmp := filt L.fidx (mulVec L.A v.cor)
+    (cgcOmega (dot v.defe v.cor) (dot tmp v.cor), tmp, [s!"M{i}"])
+  | .minDefect =>
+    let tmp := filt L.fidx (mulVec L.A v.cor)
+    (cgcOmega (dot v.defe tmp) (dot tmp tmp), tmp, [s!"M{i}"])
+
+/-- the defect handed to the post-smoother: recomputed (Fixed) or updated by the shortcut `def -= omega*tmp` -/
+def postDefect (cgc : Cgc) (L : Level) (i : Nat) (omega : Rat) (v : LvVecs) : Vec × List String :=
+  match cgc with
+  | .fixed => (defect L v.rhs v.sol, [s!"D{i}"])
+  | _ => (axpy (-omega) v.tmp v.defe, [])
+
+/-- one body of the `_apply_prol` loop; `solc` is the solution vector of the next coarser level -/
+def prolLocal (cgc : Cgc) (L : Level) (i : Nat) (smooth : Bool) (v : LvVecs) (solc : Vec) : LvVecs × List String :=
+  let v := { v with cor := filt L.fidx (mulVec L.P solc) }
+  let c := cgcStep cgc L i v
+  let v := { v with tmp := c.2.1, sol := axpy c.1 v.cor v.sol }
   match L.post, smooth with
   | some m, true =>
-    let d :=
-      match cfg.cgc with
-      | .fixed => defect L v.rhs v.sol
-      | _ => axpy (-omega) v.tmp v.defe
-    let s := s.say s!"b{i}"
-    let cor := mulVec m d
-    s.put i { v with defe := d, cor := cor, sol := axpy 1 cor v.sol }
-  | _, _ => s.put i v
+    let d := postDefect cgc L i c.1 v
+    let cor := mulVec m d.1
+    ({ v with defe := d.1, cor := cor, sol := axpy 1 cor v.sol }, [s!"P{i}"] ++ c.2.2 ++ d.2 ++ [s!"b{i}"])
+  | _, _ => (v, [s!"P{i}"] ++ c.2.2)
+
+def stepProl (cfg : Cfg) (i : Nat) (smooth : Bool) (s : St) : St :=
+  let r := prolLocal cfg.cgc (cfg.level i) i smooth (s.get i) (s.get (i + 1)).sol
+  (s.put i r.1).sayAll r.2
 
 /-- `_apply_smooth_def` -/
-def smoothDef (L : Level) (m : Mat) (tag : String) (vs : LvVecs × St) : LvVecs × St :=
-  let (v, s) := vs
-  let cor := filt L.fidx (mulVec m v.defe)
-  let sol := axpy 1 cor v.sol
-  ({ v with cor := cor, sol := sol, defe := defect L v.rhs sol }, s.say tag)
+def smoothDef (L : Level) (i : Nat) (m : Mat) (tag : String) (r : LvVecs × List String) : LvVecs × List String :=
+  let cor := filt L.fidx (mulVec m r.1.defe)
+  let sol := axpy 1 cor r.1.sol
+  ({ r.1 with cor := cor, sol := sol, defe := defect L r.1.rhs sol }, r.2 ++ [tag, s!"D{i}"])
 
 /-- `_apply_smooth_peak` -/
+def peakLocal (L : Level) (i : Nat) (v : LvVecs) : LvVecs × List String :=
+  let r0 : LvVecs × List String := ({ v with defe := defect L v.rhs v.sol }, [s!"D{i}"])
+  match L.peak with
+  | some m => smoothDef L i m s!"k{i}" r0
+  | none =>
+    let r1 := match L.pre with
+      | some m => smoothDef L i m s!"a{i}" r0
+      | none => r0
+    match L.post with
+    | some m => smoothDef L i m s!"b{i}" r1
+    | none => r1
+
 def stepPeak (cfg : Cfg) (i : Nat) (s : St) : St :=
-  let L := cfg.level i
-  let v := s.get i
-  let v := { v with defe := defect L v.rhs v.sol }
-  let (v, s) :=
-    match L.peak with
-    | some m => smoothDef L m s!"k{i}" (v, s)
-    | none =>
-      let vs := match L.pre with
-        | some m => smoothDef L m s!"a{i}" (v, s)
-        | none => (v, s)
-      match L.post with
-      | some m => smoothDef L m s!"b{i}" vs
-      | none => vs
-  s.put i v
+  let r := peakLocal (cfg.level i) i (s.get i)
+  (s.put i r.1).sayAll r.2
 
 /-- `_apply_coarse` -/
-def stepCoarse (cfg : Cfg) (s : St) : St :=
-  let i := cfg.crsLvl
-  let L := cfg.level i
-  let v := s.get i
+def coarseLocal (L : Level) (i : Nat) (v : LvVecs) : LvVecs × List String :=
   match L.crs with
-  | some m => (s.say s!"c{i}").put i { v with sol := mulVec m v.rhs }
-  | none => s.put i { v with sol := filt L.fidx v.rhs }
+  | some m => ({ v with sol := mulVec m v.rhs }, [s!"c{i}"])
+  | none => ({ v with sol := filt L.fidx v.rhs }, [])
+
+def stepCoarse (cfg : Cfg) (s : St) : St :=
+  let r := coarseLocal (cfg.level cfg.crsLvl) cfg.crsLvl (s.get cfg.crsLvl)
+  (s.put cfg.crsLvl r.1).sayAll r.2
 
 /-- semantics of a primitive step -/
 def step (cfg : Cfg) (ins : Instr) (s : St) : St :=
